@@ -165,6 +165,7 @@ DEFAULT_FEATURES = dict(
     derived=True, cte=True, order=True, limit=True, offset_no_limit=False, order_expr=True,
     cast=True, concat=True, group_expr=True, where_false=True, case_no_else=False,
     corr_in_sub=False, neg=True, null_lit=True, sum_=True, derived_limit=False, agg_in_list=True, in_sub_expr=True,
+    sorted_join=True,
 )
 
 
@@ -370,6 +371,10 @@ class QueryGen:
         r = self.rng
         t0 = r.choice(self.tables)
         a0 = self.new_alias()
+        if self.on("sorted_join", 0.06):
+            sj = self.sorted_join()
+            if sj:
+                return sj
         if self.on("derived", 0.12):
             self.tag("derived")
             # (no constant predicates inside a derived table: `(x IS NULL) AND (1 > 2)` folds to a
@@ -443,6 +448,37 @@ class QueryGen:
                 sql += f" {k} {t1.name} AS {a1} ON " + " AND ".join(conds)
             scope = scope + s1
         return sql, scope
+
+    def sorted_join(self):
+        """(SELECT k, v FROM a ORDER BY k [DESC]) AS x <join> (SELECT k, v FROM b ORDER BY k [DESC]) AS y ON x.k = y.k:
+        inputs that arrive sorted (either direction) are what the order-aware rules (merge join, sort
+        aggregation, useless-order) key on."""
+        r = self.rng
+        sides = []
+        for _ in range(2):
+            t = r.choice(self.tables)
+            ints = [c for c in t.cols if c.typ == "INT"]
+            if not ints:
+                return None
+            kcol = r.choice(ints)
+            other = r.choice(t.cols)
+            a_in, a_out = self.new_alias(), self.new_alias()
+            direction = " DESC" if r.random() < 0.5 else ""
+            where = f" WHERE {self.bool_expr(self.table_scope(t, a_in), 1)}" if r.random() < 0.3 else ""
+            sql = f"(SELECT {a_in}.{kcol.name} AS c0, {a_in}.{other.name} AS c1 FROM {t.name} AS {a_in}{where} ORDER BY c0{direction}) AS {a_out}"
+            self.origin[f"{a_out}.c0"] = f"{a_in}.{kcol.name}"
+            self.origin[f"{a_out}.c1"] = f"{a_in}.{other.name}"
+            sides.append((sql, [(f"{a_out}.c0", "INT", True), (f"{a_out}.c1", other.typ, True)]))
+        kinds = ["JOIN"] * 3 + (["LEFT JOIN", "RIGHT JOIN"] if self.f["outer_join"] else []) + (["FULL JOIN"] if self.f["full_join"] else [])
+        k = r.choice(kinds)
+        self.tag("sorted_join")
+        self.tag("derived")
+        self.tag("join:" + k.split()[0].lower())
+        cond = f"{sides[0][1][0][0]} = {sides[1][1][0][0]}"
+        if r.random() < 0.2:
+            cond += " AND " + self.bool_expr(sides[0][1] + sides[1][1], 1)
+            self.tag("join_residual")
+        return f"{sides[0][0]} {k} {sides[1][0]} ON {cond}", sides[0][1] + sides[1][1]
 
     # ---- subquery predicates
     def subquery_pred(self, scope):
